@@ -17,7 +17,7 @@ from __future__ import annotations
 import ast
 
 from .poly import P
-from .symex import Ev, find_atoms, call_name
+from .symex import seq_items, Ev, find_atoms, call_name
 from .effects import Effects, property_hook, alias_path
 
 
@@ -492,6 +492,21 @@ def _drop_lossy(term: P) -> P:
     return term.subs(m) if m else term
 
 
+def _numeric_type_tests(mod, fn, pn, depth=0):
+    """Does fn - or a function of this module it hands the parameter pn to - branch on isinstance(pn, <numeric type>)?"""
+    for n in ast.walk(fn):
+        if isinstance(n, ast.Call) and isinstance(n.func, ast.Name) and n.func.id == "isinstance" and len(n.args) == 2 \
+                and isinstance(n.args[0], ast.Name) and n.args[0].id == pn and any(w in ast.unparse(n.args[1]) for w in ("float", "int", "bool", "complex", "Number")):
+            return True
+        if depth < 2 and isinstance(n, ast.Call) and isinstance(n.func, ast.Name) and n.func.id in mod.funcs and n.func.id != fn.name:
+            callee = mod.funcs[n.func.id]
+            for k, a in enumerate(n.args):
+                if isinstance(a, ast.Name) and a.id == pn and k < len(callee.args.args):
+                    if _numeric_type_tests(mod, callee, callee.args.args[k].arg, depth + 1):
+                        return True
+    return False
+
+
 def _cache_findings(mod, rel, fx=None):
     """[(qualname, node, fingerprint, ok, expected, found)] for module-level and decorator caches of one module."""
     out = []
@@ -503,6 +518,13 @@ def _cache_findings(mod, rel, fx=None):
             have = {"self." + x for x in _self_attrs(_drop_lossy(key))} | _names(_drop_lossy(key), params)
             ext = reads_external_state(mod, fn)
             missing = sorted(deps - have)
+            # a key that is the argument itself compares 1, 1.0 and True equal: when the cached value depends on the argument's type
+            # (isinstance tests in the function or in the helper the argument is handed to) the type belongs in the key
+            for pn in sorted(params):
+                in_key = any(a[0] == "name" and a[1] == pn for a in ([key.as_atom()] if key.as_atom() else []) + list(seq_items(key) and [x.as_atom() for x in seq_items(key) if x.as_atom()] or []))
+                typed = f"type({pn})" in key.key() or f"{pn}.__class__" in key.key()
+                if in_key and not typed and _numeric_type_tests(mod, fn, pn):
+                    missing.append(f"type({pn}) (1, 1.0 and True are one key but are treated differently)")
             out.append((qual, e.node, f"modcache:{name}", not missing and not ext,
                         f"a key built from everything the cached value is computed from ({sorted(deps)})",
                         f"{name}[{str(key)[:80]}] omits {missing}" + ("; the function reads external state" if ext else "")))
